@@ -12,6 +12,7 @@ import hashlib
 import io
 import json
 import math
+import random
 import signal
 import struct
 import warnings
@@ -50,7 +51,11 @@ RULE = ("per case: a container class (H/D/T/M), int or string node labels, weigh
         "every call; all objects of a case are hashed again at the end in another order. Every history must show "
         "(getters) the content its calls describe, all four the same content and the same hash. Fixed alias probes (8: class x "
         "weighted) and identity probes (8) run first. Distinct = kind + target content + histories; non-trivial = some history "
-        "took a removal detour and the target has at least one hyperedge and one non-empty metadata")
+        "took a removal detour and the target has at least one hyperedge and one non-empty metadata. Before the cases (own "
+        "PRNGs, not counted as cases): a zoo of JSON values (fixed + 400 / 6000 random: escapes, astral characters, keys that "
+        "need sorting, ints of any size, quarter floats) written by json.dumps and - as metadata of a small object of each "
+        "class - by hash_hypergraph, against the modelled writer; 60 / 1500 short histories with set_incidence_metadata / "
+        "add_empty_edge calls inside (side tables as stored + hashed text against Model/C07Side.lean)")
 ASSUMPTIONS = [
     "node labels are all ints or all strings (mutually comparable, JSON-representable); metadata are JSON values with "
     "string keys and no cycles; numbers are ints of any size and finite floats (-0.0, nan, inf never occur); the model "
@@ -61,12 +66,16 @@ ASSUMPTIONS = [
     "is expected of the content: it is read through the getters",
     "hyperedges are duplicate-free node tuples; directed hyperedges have disjoint non-empty sides",
     "labels/layers are mapped to their rank before they reach the model (the code uses them only through ==, hash, <)",
-    "C07_differ assumes json.dumps(sort_keys=True) injective on key-sorted JSON trees and SHA-256 injective on the "
-    "two strings at hand (hypotheses of the theorem, not axioms)",
+    "C07_differ / C07_hash_iff_content assume SHA-256 injective on the strings at hand (hypothesis of the theorems, not an "
+    "axiom); injectivity of json.dumps(sort_keys=True) is a theorem about the modelled writer (`dumpsJ pyFmt`, "
+    "C07_json_text_injective + C07_pyFmt_laws), whose text is compared with the text hash_hypergraph hands to SHA-256 at "
+    "every full probe and on a zoo of JSON values (escapes, astral characters, keys to be sorted, ints of any size, quarter "
+    "floats below 2**48); floats off that range reach the model as injective stand-ins and their text is not compared",
 ]
 TRUSTED = [
-    "json.dumps / hashlib.sha256 (the parameters dumps and H of the model); the run re-computes "
-    "sha256(json.dumps(model tree)) and compares it with hash_hypergraph",
+    "hashlib.sha256 (the parameter H of the model) and float.__repr__ outside the quarter grid below 2**48; json.dumps is "
+    "modelled (Model/C07Dumps.lean) and compared text by text; the run also re-computes sha256(json.dumps(model tree)) "
+    "and sha256(text json.dumps returned) and compares them with hash_hypergraph",
     "the serialized pre-image is observed by wrapping the `json` name inside hypergraphx.readwrite.hashing for the "
     "duration of one call (no change under /repo)",
 ]
@@ -195,6 +204,43 @@ def wire(v):
                 raise ValueError("non-string key %r" % (k,))
         return "{" + ",".join(k + ":" + wire(x) for k, x in v.items()) + "}"
     raise ValueError("not a JSON value: %r" % (v,))
+
+
+def _hexs(t):
+    return ".".join("%x" % ord(c) for c in t)
+
+
+def text_grid(v):
+    """every float in v is one whose repr the model writes (`pyFltText`): on the 1/4 grid, below 2**48 (beyond, the
+    shortest round-trip digits are no longer the exact quarters: repr(-2.0**50 - 0.75) ends in .8), no -0.0"""
+    if isinstance(v, float):
+        return on_grid(v) and abs(v) < 2.0 ** 48 and not (v == 0 and math.copysign(1, v) < 0)
+    if isinstance(v, (list, tuple)):
+        return all(text_grid(x) for x in v)
+    if isinstance(v, dict):
+        return all(text_grid(x) for x in v.values())
+    return True
+
+
+def wire2(v):
+    """like wire(), but strings and keys of any content (`u<hex>.<hex>`, `$<hex>.<hex>`; no lone surrogates)"""
+    if isinstance(v, str):
+        if any(0xD800 <= ord(c) <= 0xDFFF for c in v):
+            raise ValueError("lone surrogate")
+        if v and all(c.isalnum() and c.isascii() or c == "_" for c in v):
+            return "s" + v
+        return "u" + _hexs(v)
+    if isinstance(v, (list, tuple)):
+        return "[" + ",".join(wire2(x) for x in v) + "]"
+    if isinstance(v, dict):
+        out = []
+        for k, x in v.items():
+            if not isinstance(k, str) or any(0xD800 <= ord(c) <= 0xDFFF for c in k):
+                raise ValueError("key %r" % (k,))
+            kk = k if (k and all(c.isalnum() and c.isascii() or c == "_" for c in k)) else "$" + _hexs(k)
+            out.append(kk + ":" + wire2(x))
+        return "{" + ",".join(out) + "}"
+    return wire(v)
 
 
 def norm(v):
@@ -787,17 +833,24 @@ class JsonSpy:
 
     def __init__(self):
         self.seen = []
+        self.texts = []
 
     def dumps(self, obj, *a, **k):
         self.seen.append((copy.deepcopy(obj), a, dict(k)))
-        return json.dumps(obj, *a, **k)
+        text = json.dumps(obj, *a, **k)
+        self.texts.append(text)
+        return text
 
     def __getattr__(self, name):
         return getattr(json, name)
 
 
+LAST_TEXT = [None]      # the text json.dumps returned inside the last hash_with_spy call
+
+
 def hash_with_spy(h):
     """(digest, serialized pre-image or None)"""
+    LAST_TEXT[0] = None
     import hypergraphx.readwrite.hashing as hashing
     spy = JsonSpy()
     real = hashing.json
@@ -806,6 +859,7 @@ def hash_with_spy(h):
         d = hashing.hash_hypergraph(h)
     finally:
         hashing.json = real
+    LAST_TEXT[0] = spy.texts[-1] if spy.texts else None
     return d, (spy.seen[-1][0] if spy.seen else None)
 
 
@@ -2090,6 +2144,7 @@ def run_history(ctx, drv, slot, kind, weighted, user_hm, ops, rank, lrank, case,
         before = state_digest(h)
         try:
             d1, ser = hash_with_spy(h)
+            jtext = LAST_TEXT[0]
             d2 = plain_hash(h)
             raw = h.expose_attributes_for_hashing()
         except Timeout:
@@ -2158,6 +2213,21 @@ def run_history(ctx, drv, slot, kind, weighted, user_hm, ops, rank, lrank, case,
                 expect.append(("pre", pos, wire(map_exposed(kind, ser, rank, lrank)), d1, unrank, unlrank))
                 lines.append("content %d" % slot)
                 expect.append(("content", pos, wire(map_exposed(kind, ser, rank, lrank))))
+                # the JSON text itself (Model/C07Dumps.lean): `hashText pyFmt` of the model tables against json.dumps of the
+                # rank-mapped pre-image, and `dumpsJ pyFmt` of the REAL pre-image against the text hash_hypergraph hashed
+                if isinstance(jtext, str) and text_grid(ser):
+                    if hashlib.sha256(jtext.encode("utf-8")).hexdigest() != d1:
+                        note_disagree(ctx, {**case, "at": pos}, "hash_hypergraph is not sha256 of the utf-8 text json.dumps returned")
+                    try:
+                        w2 = wire2(ser)
+                    except ValueError:
+                        w2 = None
+                    if w2 is not None and len(w2) < 12000:
+                        lines.append("text %d" % slot)
+                        expect.append(("text", pos, "=" + json.dumps(map_exposed(kind, ser, rank, lrank), sort_keys=True)))
+                        lines.append("dumps " + w2)
+                        expect.append(("dumps", pos, "=" + jtext))
+                        ctx.count("json_texts_compared")
             elif not free:
                 lines.append("pre %d" % slot)
                 expect.append(("pre", pos, wire(map_exposed(kind, ser, rank, lrank)), d1, unrank, unlrank))
@@ -2271,6 +2341,8 @@ def run_history(ctx, drv, slot, kind, weighted, user_hm, ops, rank, lrank, case,
                         "pre": "serialized pre-image differs from the model's preimage?",
                         "content": "serialized pre-image differs from canon(content(model tables))",
                         "canon": "serialized pre-image differs from canon(content observed through the getters)",
+                        "text": "json.dumps(pre-image, sort_keys=True) differs from the model's hashText (Model/C07Dumps.lean)",
+                        "dumps": "the text hash_hypergraph hands to SHA-256 differs from the model's dumpsJ of the same pre-image",
                         "heap": "values / serialize() results of the metadata objects (addresses = objects, so slots that "
                                 "hold ONE object have one address) differ from the heap model (C07_serialize_by_reference)"}[ex[0]]
                 if ex[0] == "canon":
@@ -2906,9 +2978,284 @@ def limit_reports(ctx):
     ctx._c07_limited = True
 
 
+ZOO_CHARS = ['"', "\\", "\n", "\r", "\t", "\b", "\f", "\x00", "\x1f", " ", "~", "\x7f", "\x80", "\xe9", "\u2028", "\ud7ff",
+             "\ue000", "\uffff", "\U00010000", "\U0001f600", "\U0010ffff", "/", "a", "Z", "0", "_", "u", ",", ":", "]", "}", "{", "["]
+ZOO_FIXED = [
+    None, True, False, 0, -1, 1, 1.0, -0.25, 0.0, 2.5, 1e14 + 0.5, -(2.0 ** 47) - 0.75, 2.0 ** 48 - 0.25, 9007199254740993, -(2 ** 64), 2 ** 1024 + 1,
+    "", '"', "\\", "a\"b\\c\n", "\U0001f600\xe9\x7f", [], {}, [[]], [{}], {"": {}}, {"b": 1, "a": 1.0, "B": True},
+    {"\xe9": 1, "z": 2, "\U0001f600": 3, "\uffff": 4, "a\"": 5}, ["null", None, "true", True, "1", 1, "1.0", 1.0],
+    {"k": ["]", "}", ",", ", ", ": "]}, [1, [2, [3, [4, {"d": {"e": []}}]]]], {"a": {"b": 1}, "a\x00": {"b": 1.0}},
+]
+
+
+def zoo_value(rng, depth=0):
+    def zstr():
+        return "".join(rng.choice(ZOO_CHARS) for _ in range(rng.choice([0, 1, 1, 2, 3, 6])))
+    r = rng.random()
+    if depth >= 3 or r < 0.5:
+        c = rng.randrange(7)
+        if c == 0:
+            return rng.choice(BIG_INTS) * rng.choice([1, -1]) if rng.random() < 0.3 else rng.randint(-1200, 1200)
+        if c == 1:
+            m = rng.choice([1, 1, 1, 10 ** 6, 2 ** 40, 2 ** 44])
+            return rng.randint(-40, 40) * m / 4
+        if c == 2:
+            return zstr()
+        if c == 3:
+            return rng.random() < 0.5
+        if c == 4:
+            return None
+        if c == 5:
+            return rng.choice(SVALS)
+        return rng.randint(0, 9)
+    if r < 0.75:
+        return [zoo_value(rng, depth + 1) for _ in range(rng.randint(0, 4))]
+    return {(zstr() if rng.random() < 0.6 else rng.choice(WORDS)): zoo_value(rng, depth + 1) for _ in range(rng.randint(0, 4))}
+
+
+def check_json_zoo(ctx, drv, n):
+    """json.dumps(v, sort_keys=True) of JSON values of every shape (escapes, astral characters, keys that need sorting, ints
+    of any size, quarter floats) against `dumpsJ pyFmt` (the function the theorems C07_json_text_injective /
+    C07_hash_iff_content speak about); own PRNG, the case streams are untouched"""
+    if drv is None:
+        return
+    rng = random.Random((ctx.seed * 7919) ^ 0xC07D)
+    vals = list(ZOO_FIXED) + [zoo_value(rng) for _ in range(n)]
+    lines, want, kept = [], [], []
+    for v in vals:
+        if not text_grid(v):
+            continue
+        try:
+            ln = "dumps " + wire2(v)
+            tx = "=" + json.dumps(v, sort_keys=True)
+        except (ValueError, TypeError):
+            continue
+        lines.append(ln)
+        want.append(("dumps", 0, tx))
+        kept.append(v)
+    try:
+        answers = batch_safe(drv, lines, want)
+    except Timeout:
+        raise
+    for v, ln, a, ex in zip(kept, lines, answers, want):
+        ctx.count("json_zoo_values")
+        if a != ex[2]:
+            note_disagree(ctx, {"json_value": repr(v), "line": ln[:400]},
+                          "json.dumps(v, sort_keys=True) differs from the model's dumpsJ pyFmt: model %s, json %s" % (a[:300], ex[2][:300]))
+            if ctx.extra.get("disagreements_seen", 0) >= 3:
+                break
+    # the same values THROUGH hash_hypergraph (the options hashing.py passes to json.dumps): as hypergraph / node / hyperedge
+    # metadata of a small object of each class; text handed to SHA-256 against dumpsJ pyFmt of the captured pre-image
+    from hypergraphx import Hypergraph, DirectedHypergraph, TemporalHypergraph, MultiplexHypergraph
+    lines, want, kept = [], [], []
+    signal.signal(signal.SIGALRM, _alarm)
+    for j, v in enumerate(vals[: max(40, len(vals) // 3)]):
+        if not text_grid(v):
+            continue
+        kind = KINDS[j % 4]
+        signal.alarm(20)
+        try:
+            if kind == "H":
+                h = Hypergraph(hypergraph_metadata={"zoo": copy.deepcopy(v)})
+                h.add_edge((1, 2), metadata={"v": copy.deepcopy(v)})
+            elif kind == "D":
+                h = DirectedHypergraph(hypergraph_metadata={"zoo": copy.deepcopy(v)})
+                h.add_edge(((1,), (2,)), metadata={"v": copy.deepcopy(v)})
+            elif kind == "T":
+                h = TemporalHypergraph(hypergraph_metadata={"zoo": copy.deepcopy(v)})
+                h.add_edge((1, 2), 3, metadata={"v": copy.deepcopy(v)})
+            else:
+                h = MultiplexHypergraph(hypergraph_metadata={"zoo": copy.deepcopy(v)})
+                h.add_edge((1, 2), "L0", metadata={"v": copy.deepcopy(v)})
+            h.add_node(7, {"v": copy.deepcopy(v)})
+            d1, ser = hash_with_spy(h)
+            jtext = LAST_TEXT[0]
+            if not isinstance(jtext, str) or hashlib.sha256(jtext.encode("utf-8")).hexdigest() != d1:
+                note_disagree(ctx, {"json_value": repr(v), "kind": kind}, "hash_hypergraph is not sha256 of the utf-8 text json.dumps returned")
+                continue
+            lines.append("dumps " + wire2(ser))
+            want.append(("dumps", 0, "=" + jtext))
+            kept.append((kind, v))
+        except Timeout:
+            ctx.violation({"json_value": repr(v), "kind": kind}, "hash_hypergraph did not finish within 20 s")
+        except Exception as e:
+            note_disagree(ctx, {"json_value": repr(v), "kind": kind}, "JSON value as metadata not hashable: %r" % (e,))
+        finally:
+            signal.alarm(0)
+    answers = batch_safe(drv, lines, want)
+    for (kind, v), ln, a, ex in zip(kept, lines, answers, want):
+        ctx.count("json_zoo_hashed")
+        if a != ex[2]:
+            note_disagree(ctx, {"json_value": repr(v), "kind": kind, "line": ln[:400]},
+                          "the text hash_hypergraph hands to SHA-256 differs from the model's dumpsJ pyFmt of the same pre-image: "
+                          "model %s, implementation %s" % (a[:300], ex[2][:300]))
+            if ctx.extra.get("disagreements_seen", 0) >= 3:
+                break
+
+
+SIDE_LABELS = list(range(7))
+SIDE_RANK = {x: x for x in range(64)}
+
+
+def side_tables(kind, h):
+    """the two side tables of a real object as the driver prints them (`side <slot>`)"""
+    inc = h.get_all_incidences_metadata() if hasattr(h, "get_all_incidences_metadata") else {}
+    parts = []
+    for (k, node), md in inc.items():
+        if kind == "H":
+            kt = [int(x) for x in k]
+        elif kind == "D":
+            kt = [[int(x) for x in k[0]], [int(x) for x in k[1]]]
+        else:
+            kt = [int(k[0]), [int(x) for x in k[1]]]
+        parts.append(wire(kt) + "@%d=" % node + wire(md))
+    emp = {}
+    if kind == "H":
+        try:
+            emp = h.expose_data_structures().get("empty_edges")
+        except Exception:
+            emp = None
+        if emp is None:
+            emp = getattr(h, "_empty_edges", {})
+    return ("|".join(parts) or "-") + " " + wire(dict(emp))
+
+
+def side_apply(kind, h, op):
+    try:
+        if op[0] == "setinc":
+            k, node, md = op[1], op[2], copy.deepcopy(op[3])
+            if kind == "H":
+                h.set_incidence_metadata(tuple(k), node, md)
+            elif kind == "D":
+                h.set_incidence_metadata((tuple(k[0]), tuple(k[1])), node, md)
+            elif kind == "T":
+                h.set_incidence_metadata(tuple(k[1]), k[0], node, md)
+            else:
+                h.set_incidence_metadata(tuple(k[0]), k[1], node, md)
+        else:
+            h.add_empty_edge(op[1], copy.deepcopy(op[2]))
+        return "ok"
+    except Timeout:
+        raise
+    except BaseException:
+        return "rej"
+
+
+def side_key(kind, rng):
+    ns = rng.sample(SIDE_LABELS, rng.randint(1, 3))
+    if kind == "H":
+        return ns
+    if kind == "D":
+        rest = [x for x in SIDE_LABELS if x not in ns]
+        return [ns, rng.sample(rest, rng.randint(1, 2))]
+    if kind == "T":
+        return [rng.randint(0, 2), ns]
+    return [ns, rng.choice(LAYERS[:2])]
+
+
+def gen_side_ops(kind, weighted, rng):
+    ops, keys = [], []
+    for _ in range(rng.randint(4, 12)):
+        r = rng.random()
+        if r < 0.3 or not keys:
+            k = side_key(kind, rng)
+            w = rng.choice([2, 3, 0.5]) if (weighted and rng.random() < 0.6) else None
+            ops.append(["addedge", k, w, gen_dict(rng) if rng.random() < 0.4 else None])
+            keys.append(k)
+        elif r < 0.62:
+            k = perm_key(kind, rng.choice(keys), rng) if rng.random() < 0.8 else side_key(kind, rng)
+            ops.append(["setinc", k, rng.choice(SIDE_LABELS + [9]), gen_dict(rng)])
+        elif r < 0.78:
+            ops.append(["addempty", rng.choice(["e1", "e2", "x_y"]), gen_dict(rng)])
+        elif r < 0.86:
+            ops.append(["rmedge", perm_key(kind, rng.choice(keys), rng)])
+        elif r < 0.92:
+            ops.append(["rmnode", rng.choice(SIDE_LABELS), rng.randint(0, 1)])
+        elif kind == "M":
+            # MultiplexHypergraph has neither set_node_metadata nor clear()
+            ops.append(["addnode", rng.choice(SIDE_LABELS), gen_dict(rng)])
+        elif r < 0.96:
+            ops.append(["setnm", rng.choice(SIDE_LABELS), gen_dict(rng)])
+        else:
+            ops.append(["clear"])
+    return ops
+
+
+def check_side_case(ctx, drv, case):
+    """one object with side-table calls inside its history: per call ok / rej, after every side-table call and at the end
+    the stored side tables and the hashed TEXT against `Obj` / `ostep` / `hashTextObj pyFmt` (Model/C07Side.lean); the
+    digest must be sha256 of that text"""
+    from hypergraphx import Hypergraph, DirectedHypergraph, TemporalHypergraph, MultiplexHypergraph
+    kind, weighted, ops = case["kind"], case["weighted"], case["side_history"]
+    cls = {"H": Hypergraph, "D": DirectedHypergraph, "T": TemporalHypergraph, "M": MultiplexHypergraph}[kind]
+    lrank = {x: i for i, x in enumerate(sorted(LAYERS))}
+    slot = 90
+    lines = ["onew %d %s %d {}" % (slot, kind, 1 if weighted else 0)]
+    want = [("ans", "ok")]
+    signal.signal(signal.SIGALRM, _alarm)
+    signal.alarm(20)
+    try:
+        h = cls(weighted=weighted)
+        for i, op in enumerate(ops):
+            if op[0] in ("setinc", "addempty"):
+                a = side_apply(kind, h, op)
+                if op[0] == "setinc":
+                    lines.append("setinc %d %s %d %s" % (slot, wire_key(kind, canon_free(kind, op[1]), SIDE_RANK, lrank), op[2], wire(op[3])))
+                else:
+                    lines.append("addempty %d %s %s" % (slot, op[1], wire(op[2])))
+            else:
+                a = apply_op(kind, h, op)
+                lines.append(wire_op(kind, slot, op, SIDE_RANK, lrank))
+            want.append(("ans", a))
+            if op[0] in ("setinc", "addempty", "clear", "rmedge") or i == len(ops) - 1:
+                d1, ser = hash_with_spy(h)
+                jtext = LAST_TEXT[0]
+                if not isinstance(jtext, str) or hashlib.sha256(jtext.encode("utf-8")).hexdigest() != d1:
+                    note_disagree(ctx, {**case, "at": i}, "hash_hypergraph is not sha256 of the utf-8 text json.dumps returned")
+                lines.append("side %d" % slot)
+                want.append(("side", i, side_tables(kind, h)))
+                if text_grid(ser):
+                    lines.append("text %d" % slot)
+                    want.append(("text", i, "=" + json.dumps(map_exposed(kind, ser, SIDE_RANK, lrank), sort_keys=True)))
+    except Timeout:
+        ctx.violation(case, "history with side-table calls did not finish within 20 s")
+        return
+    except Exception as e:
+        note_disagree(ctx, case, "object with side tables not observable: %r" % (e,))
+        return
+    finally:
+        signal.alarm(0)
+    answers = batch_safe(drv, lines, want)
+    for ln, a, ex in zip(lines, answers, want):
+        exp = ex[1] if ex[0] == "ans" else ex[2]
+        if a != exp:
+            what = {"ans": "model answers %r to %r, implementation %r" % (a, ln, exp),
+                    "side": "the side tables (_incidences_metadata, _empty_edges) differ from the model's Obj: model %s, implementation %s" % (a[:300], exp[:300]),
+                    "text": "the hashed text of an object with side-table calls in its history differs from hashTextObj "
+                            "(side tables must not reach the hashed view): model %s, implementation %s" % (a[:300], exp[:300])}[ex[0]]
+            note_disagree(ctx, {**case, "line": ln}, what)
+            break
+
+
+def check_side(ctx, drv, n):
+    if drv is None:
+        return
+    rng = random.Random((ctx.seed * 104729) ^ 0x51DE)
+    for i in range(n):
+        kind = KINDS[i % 4]
+        weighted = rng.random() < 0.4
+        case = {"kind": kind, "weighted": weighted, "side_history": gen_side_ops(kind, weighted, rng)}
+        check_side_case(ctx, drv, case)
+        ctx.count("side_table_histories")
+        if ctx.extra.get("disagreements_seen", 0) >= 3:
+            break
+
+
 def run(ctx):
     limit_reports(ctx)
     drv = ctx.driver() if ctx.model_available else None
+    check_json_zoo(ctx, drv, ctx.scale(400, 6000))
+    check_side(ctx, drv, ctx.scale(60, 1500))
     for w in WITNESSES + alias_probes() + identity_probes():
         check_case(ctx, drv, copy.deepcopy(w))
         ctx.case("witness:" + json.dumps(w, sort_keys=True), True)
@@ -2933,6 +3280,13 @@ def _tuplify_ops(ops):
 def replay(ctx, case):
     limit_reports(ctx)
     drv = ctx.driver() if ctx.model_available else None
+    if "json_value" in case:
+        check_json_zoo(ctx, drv, 0)
+        return
+    if "side_history" in case:
+        if drv is not None:
+            check_side_case(ctx, drv, case)
+        return
     c = dict(case)
     if "history" in c and "histories" not in c:
         c["histories"] = [c["history"]]
